@@ -33,12 +33,20 @@ func monomialLcm(f, g *Polynomial) (lcm *Polynomial) {
 // SPolynomial computes the S-polynomial of f and g.
 //
 // It returns an ArithmeticIncompat-error if f and g are defined over different
-// rings.
+// rings, and an InputValue-error if f or g is the zero polynomial.
 func SPolynomial(f, g *Polynomial) (*Polynomial, error) {
 	const op = "Computing S-polynomial"
 
 	if tmp := checkErrAndCompatible(op, f, g); tmp != nil {
 		return nil, tmp.Err()
+	}
+
+	if f.IsZero() || g.IsZero() {
+		// The zero polynomial has no leading term
+		return nil, errors.New(
+			op, errors.InputValue,
+			"The S-polynomial of the zero polynomial is undefined",
+		)
 	}
 
 	lcm := monomialLcm(f.Lt(), g.Lt()) // Ignore error since Lt() is monomial
